@@ -1141,7 +1141,15 @@ class Function(Ring):
         return Function.pushforward(algopy.sign, [self])
 
     def sum(self, axis=None, dtype=None, out=None):
-        return Function.pushforward(algopy.sum, [self, axis, dtype, out])
+        # axis, dtype and out are recorded as keyword arguments: UTPM.pb_sum
+        # expects them behind y, whereas positional arguments of a node are
+        # handed to the pullback in front of y (axis was then read as None)
+        Fkwargs = {'axis': axis}
+        if dtype is not None:
+            Fkwargs['dtype'] = dtype
+        if out is not None:
+            Fkwargs['out'] = out
+        return Function.pushforward(algopy.sum, [self], Fkwargs = Fkwargs)
 
     def prod(self):
         return Function.pushforward(algopy.prod, [self])
